@@ -29,6 +29,7 @@ class Recorder:
         self.events = []
         self.fids, self.lfs, self.oids = {}, {}, {}
         self.inline = {}              # id(channel item) -> array given at add_channel
+        self._keep = []               # every recorded object stays alive: a recycled id() would attribute calls to the wrong object
         self.items = {}               # oid -> item
         self._undo = []
         self.nwrite = 0
@@ -116,6 +117,7 @@ class Recorder:
                 try:
                     orig(self_, *a, **kw)
                     rec.fids[id(self_)] = fid
+                    rec._keep.append(self_)
                     sul = self_.storage_unit_label
                     ev.update({'vrl': int(sul.max_record_length), 'seq': int(sul.sequence_number), 'setid': cps(sul.set_identifier), 'outcome': 'ok'})
                 except Exception as e:  # noqa
@@ -135,6 +137,7 @@ class Recorder:
                 try:
                     lf = orig(self_, *a, **kw)
                     rec.lfs[id(lf)] = lfid
+                    rec._keep.append(lf)
                     ev.update({'fh_id': cps(lf.file_header.header_id), 'fh_seq_dec': cps(str(lf.file_header.sequence_number)), 'outcome': 'ok'})
                 except Exception as e:  # noqa
                     ev.update({'fh_id': [], 'fh_seq_dec': [49], 'outcome': 'raised', 'exc': rec.h['exc_text'](e)})
@@ -175,6 +178,7 @@ class Recorder:
                         rec.events.append(ev)
                         raise
                     rec.oids[id(item)] = oid
+                    rec._keep.append(item)
                     rec.items[oid] = item
                     if cls == 'channel' and args.get('data') is not None:
                         rec.inline[id(item)] = args['data']
